@@ -4,6 +4,7 @@
 // Compile with -DVF_FAULTS=1 for the C11 variant (allocation refusal at growth, failing element
 // creation, failures inside the migration to a larger table, throwing hash functor).
 #define MOMO_INCLUDE_OLD_HASH_BUCKETS
+#include <cstring>
 #include "momo/HashSet.h"
 #include "momo/HashMap.h"
 #include "common/verif_elems.h"
@@ -187,7 +188,20 @@ static void runConfig(Ctx& c, Rng& rng, const Cfg& cfg, unsigned fam, unsigned k
 			std::reverse(script.begin(), script.end());
 		}
 #endif
-		for (unsigned step = 0; step < nOps; ++step) {
+		// scripted prologue (C13 seen from the container): with a hash family that sends every key to start bucket 0 (constant,
+		// high byte only) an open-addressing table is crowded with distinct fresh keys until the probe distance passes 256
+		// (Open2N2<1>, OpenN1<1>) resp. 280 buckets (Open2N2<2>): displacements that the search-bound encoders cannot store
+		// exactly. Every one of these keys must stay findable (fullCheck) and the model must reproduce the stored bounds.
+		bool crowding = false;
+		if (script.empty() && std::strncmp(cfg.kind, "Open", 4) == 0 && (fam == 0 || fam == 2) && cfg.n <= 2 && runNo % 2 == 1) {
+			crowding = true;
+			unsigned nCrowd = cfg.n == 1 ? 300 : 560;
+			for (unsigned i = 0; i < nCrowd; ++i) script.push_back({ keyRange + 5000 + i, -1 });
+			std::reverse(script.begin(), script.end());
+			c.stats.count("crowded_open_table_runs");
+		}
+		const unsigned totalOps = nOps + (unsigned)script.size();
+		for (unsigned step = 0; step < totalOps; ++step) {
 			unsigned r = (unsigned)rng.below(100);
 			uint32_t k = (uint32_t)rng.below(keyRange);
 			long forcedCopy = -1;
@@ -371,6 +385,12 @@ static void runConfig(Ctx& c, Rng& rng, const Cfg& cfg, unsigned fam, unsigned k
 			c.stats.evaluations++;
 			if (history.size() < 160) history += op + "; ";
 			if (step % 16 == 15 || step + 1 == nOps) fullCheck(op.c_str());
+			if (crowding && !script.empty()) {
+				// a search bound that is too small may be repaired by the very next insertion from the same start bucket:
+				// during the crowding prologue every key of the reference is looked up after EVERY insertion
+				for (auto& kv : refA) if (!A.find(kv.first)) { c.fail("C01 lookup: %s crowding, after %zu insertions into one start bucket (%s): present key %u not found", suiteName.c_str(), refA.size(), op.c_str(), kv.first); break; }
+				c.stats.count("crowded_lookup_sweeps");
+			}
 			{
 				std::vector<GenInfo> g; layoutSum<Ad>(A.hs(), &g, nullptr);
 				if (g.size() >= 2) c.stats.count("state.ops_with_2plus_generations");
@@ -397,6 +417,9 @@ static void runKind(Ctx& c, Rng& rng, const char* kind, unsigned n, const char* 
 	if (!fast) runs *= 3;	// slow-hash traits keep hash bits next to the items and reuse them on growth (C12): more histories
 	for (unsigned run = 0; run < runs; ++run) {
 		unsigned fam = (unsigned)rng.below(8);
+		// open addressing with one or two items per bucket: run 1 always uses a family that sends every key to one start bucket
+		// (constant / high byte only), which triggers the crowding prologue of runConfig
+		if (std::strncmp(kind, "Open", 4) == 0 && n <= 2 && run == 1) fam = rng.chance(1, 2) ? 0 : 2;
 		static const unsigned ranges[] = { 12, 40, 150, 600 };
 		unsigned keyRange = ranges[rng.below(4)];
 		unsigned nOps = c.thorough ? 1200 : 260;
